@@ -42,11 +42,7 @@ def modelProbe (text : Bytes) : Json :=
 /-- what the specification says a reader must report for table `t` (same JSON shape as
     the implementation's observation, minus the fields the spec does not define) -/
 def expectedJson (t : List KMount) : Json :=
-  let sh := t.foldl (fun (acc : List Bytes × List Bool) m =>
-      let isS := isShadowingType m.fstype
-      let par := acc.1.contains m.parent
-      (if isS || par then m.id :: acc.1 else acc.1, acc.2 ++ [!isS && par])) ([], [])
-  let ms := (t.zip sh.2).map fun (m, s) =>
+  let ms := (t.zip (shadowFlags t)).map fun (m, s) =>
     let e := expectedOf m
     obj [("source", jb e.lower), ("mountpoint", jb e.mountpoint), ("source2", jb e.upper),
          ("workdir", jb e.work), ("fstype", jb e.fstype), ("options", jb e.options),
@@ -87,9 +83,17 @@ def handle (op : String) (j : Json) : Option Json :=
         (if t.any (fun m => m.fstype == b!"overlay") then ["overlay"] else []) ++
         (if t.any (fun m => m.optional.length > 0) then ["optional"] else []) ++
         (if t.any (fun m => mangleWith pathEsc m.mp != m.mp) then ["escaped-mp"] else [])
-      some (obj [("model", model), ("harness_ok", Json.bool (render t == text)),
-                 ("holds", Json.bool holds), ("expected", exp),
-                 ("tags", Json.arr (tags.map Json.str).toArray)])
+      -- recorded finding: the kernel does not escape CR, and the line reader (bufio.ScanLines)
+      -- strips one CR at the end of a line: a last option value ending in CR comes back short
+      let crAtEnd := t.any fun m => match m.super.getLast? with
+        | some o => (match o.val with | some v => v.getLast? == some 13 | none => o.key.getLast? == some 13)
+        | none => false
+      let base := [("model", model), ("harness_ok", Json.bool (render t == text)),
+                   ("holds", Json.bool holds), ("expected", exp),
+                   ("tags", Json.arr (tags.map Json.str).toArray)]
+      if !holds && crAtEnd && model == impl then
+        some (obj (base ++ [("finding", Json.str "mountinfo-cr-at-line-end")]))
+      else some (obj base)
     | _ => some (obj [("model", model), ("holds", Json.bool true),
                       ("tags", Json.arr #[Json.str "malformed"])])
   | _ => none
